@@ -35,6 +35,27 @@ Proof.
     destruct n; simpl; auto.
 Qed.
 
+Lemma pos_name_nonnil : forall p, pos_name p <> [].
+Proof. destruct p; discriminate. Qed.
+
+Lemma pos_name_inj : forall p q, pos_name p = pos_name q -> p = q.
+Proof.
+  induction p; destruct q; simpl; intros H; inversion H; auto;
+    try (f_equal; auto); try (exfalso; eapply pos_name_nonnil; eauto; fail);
+    try (exfalso; eapply pos_name_nonnil; symmetry; eauto).
+Qed.
+
+Lemma stage_name_inj : forall a b, stage_name a = stage_name b -> a = b.
+Proof.
+  intros [|p] [|q] H; unfold stage_name in H; inversion H as [H1]; auto.
+  - destruct q; simpl in H1; inversion H1. exfalso. eapply pos_name_nonnil; eauto.
+  - destruct p; simpl in H1; inversion H1. exfalso. eapply pos_name_nonnil; eauto.
+  - f_equal. apply pos_name_inj. auto.
+Qed.
+
+Lemma stage_path_inj : forall base a b, stage_path base a = stage_path base b -> a = b.
+Proof. intros base a b H. unfold stage_path in H. apply app_inv_head in H. inversion H. auto. Qed.
+
 Definition norm_obs (o : obs) : obs := match o with OErr ENOENT => OErr E404 | _ => o end.
 
 Definition fs_obs (cfg : fscfg) (st : fstate) (ops : list op) : list obs :=
@@ -107,10 +128,34 @@ Section Refine.
   Record rel (st : fstate) (s : spec) : Prop := {
     r_good : good cfg (fs_fs st);
     r_hnd : fs_hnd st = map fst (s_hnd s);
-    r_stage : forall name, fs_lookup (fs_fs st) (stage_path (f_base cfg) name) = None;
+    (* the abstraction ignores staging files: the only ones there are belong to open streams *)
+    r_stage : forall name, fs_lookup (fs_fs st) (stage_path (f_base cfg) name) <> None ->
+                exists sid, nth_error (fs_str st) sid = Some (Some (stage_path (f_base cfg) name));
     r_map : forall k d, storable cfg k d ->
-              fs_lookup (fs_fs st) d = match lookup k (s_map s) with Some c => Some (File c) | None => None end
+              fs_lookup (fs_fs st) d = match lookup k (s_map s) with Some c => Some (File c) | None => None end;
+    r_len : length (fs_str st) = length (s_str s);
+    (* an open stream owns one staging file, named by a counter value already used, holding what was written *)
+    r_open : forall sid sp, nth_error (fs_str st) sid = Some (Some sp) ->
+               exists j c, sp = stage_path (f_base cfg) (stage_name j) /\ (j < fs_ctr st)%N /\
+                           nth_error (s_str s) sid = Some (c, false) /\ fs_lookup (fs_fs st) sp = Some (File c);
+    r_closed : forall sid, nth_error (fs_str st) sid = Some None -> exists c, nth_error (s_str s) sid = Some (c, true);
+    r_uniq : forall i j sp, nth_error (fs_str st) i = Some (Some sp) -> nth_error (fs_str st) j = Some (Some sp) -> i = j
   }.
+
+  Lemma rel_fresh : forall st s, rel st s ->
+    fs_lookup (fs_fs st) (stage_path (f_base cfg) (stage_name (fs_ctr st))) = None.
+  Proof.
+    intros st s R. destruct (fs_lookup (fs_fs st) (stage_path (f_base cfg) (stage_name (fs_ctr st)))) eqn:X; auto.
+    exfalso. destruct (r_stage _ _ R (stage_name (fs_ctr st))) as [sid H]. congruence.
+    destruct (r_open _ _ R sid _ H) as [j [c [E [J _]]]].
+    apply stage_path_inj in E. apply stage_name_inj in E. lia.
+  Qed.
+
+  Lemma s_put_str : forall s k c, s_str (s_put s k c) = s_str s.
+  Proof. intros. unfold s_put. destruct (lookup k (s_map s)); auto. Qed.
+
+  Lemma s_put_hnd : forall s k c, s_hnd (s_put s k c) = s_hnd s.
+  Proof. intros. unfold s_put. destruct (lookup k (s_map s)); auto. Qed.
 
   Lemma rel_handle : forall st s h, rel st s -> fs_handle st h = s_handle s h.
   Proof.
@@ -134,11 +179,11 @@ Section Refine.
         as [f' [lg [RUN [G' [LD [STG OTH]]]]]]
     end.
     { simpl. rewrite N.add_0_r. apply stage_name_ok. auto. }
-    { simpl. apply (r_stage _ _ R). }
+    { simpl. rewrite N.add_0_r. apply (rel_fresh _ _ R). }
     rewrite RUN in FP. inversion FP; subst; clear FP. simpl. split; auto. split; auto.
     constructor; simpl.
     - auto.
-    - rewrite (r_hnd _ _ R). unfold s_put. destruct (lookup (b :: k0) (s_map s)); auto.
+    - rewrite (r_hnd _ _ R). rewrite s_put_hnd. auto.
     - intros name. rewrite STG. apply (r_stage _ _ R).
     - intros k' d' HS'. destruct (bytes_eqb k' (b :: k0)) eqn:EQ.
       + apply bytes_eqb_eq in EQ. subst k'.
@@ -149,15 +194,20 @@ Section Refine.
         { intros X. subst d'. apply EQ. destruct HS' as [_ [K' _]]. destruct HS as [_ [K _]].
           eapply keypath_inj; eauto. }
         rewrite (OTH k' d' HS' H). rewrite spec_put_other by congruence. apply (r_map _ _ R). auto.
+    - rewrite s_put_str. apply (r_len _ _ R).
+    - intros sid sp HO. destruct (r_open _ _ R sid sp HO) as [j [c [E [J [SS L]]]]].
+      exists j, c. rewrite s_put_str. repeat split; auto. lia. rewrite E. rewrite STG. rewrite <- E. auto.
+    - intros sid HC. rewrite s_put_str. apply (r_closed _ _ R sid HC).
+    - apply (r_uniq _ _ R).
   Qed.
 
   Lemma step_rel : forall st s o, rel st s -> op_ok (@Some (list N)) s o = true -> op_storable cfg o ->
-    atomic_op o = true -> (fs_ctr st < 2 ^ 254)%N ->
+    (fs_ctr st < 2 ^ 254)%N ->
     norm_obs (snd (fst (fs_step cfg st o))) = snd (spec_step (@Some (list N)) true s o) /\
     rel (fst (fst (fs_step cfg st o))) (fst (spec_step (@Some (list N)) true s o)) /\
     (fs_ctr (fst (fst (fs_step cfg st o))) <= fs_ctr st + 1)%N.
   Proof.
-    intros st s o R OK ST AT CT.
+    intros st s o R OK ST CT.
     assert (OPEN : forall k d, storable cfg k d ->
               exists lg, fs_open cfg (fs_fs st) k =
                          Some (match lookup k (s_map s) with Some c => Ok (File c) | None => Err ENOENT end, lg)).
@@ -219,21 +269,150 @@ Section Refine.
       rewrite EG. rewrite (storable_path k d HS). unfold do_sys.
       rewrite (read_result (fs_fs st) k d (SStat d) (r_good _ _ R) HS) by auto.
       rewrite (r_map _ _ R k d HS). destruct (lookup k (s_map s)); simpl; (split; auto; split; [apply R|lia]).
-    - discriminate.
-    - discriminate.
-    - discriminate.
+    - (* open a stream: its staging file appears; the map does not see it *)
+      pose proof (rel_fresh _ _ R) as FR.
+      set (sp := stage_path (f_base cfg) (stage_name (fs_ctr st))) in *.
+      assert (SPN : sp <> []). { unfold sp, stage_path. destruct (f_base cfg); discriminate. }
+      assert (X : sys_exec (fs_fs st) (SCreat sp) = (fs_set (fs_fs st) sp (File []), Ok RVUnit)).
+      { apply exec_creat_ok; auto.
+        - unfold sp, stage_path. apply path_ok_app. split; auto.
+          constructor. apply temp_comp_ok. constructor; [|constructor]. apply stage_name_ok; auto.
+        - replace (dirname sp) with (staging_dir (f_base cfg)).
+          + unfold staging_dir. apply all_dirs_snoc. apply (g_base _ _ (r_good _ _ R)). apply (g_temp _ _ (r_good _ _ R)).
+          + unfold sp, stage_path, staging_dir.
+            replace (f_base cfg ++ [temp_name; stage_name (fs_ctr st)]) with ((f_base cfg ++ [temp_name]) ++ [stage_name (fs_ctr st)])
+              by (rewrite <- app_assoc; auto).
+            symmetry. apply dirname_snoc. }
+      unfold do_sys. rewrite X. simpl. split; auto. split; [|lia].
+      constructor; simpl.
+      + apply (good_set_stage cfg base_ok). apply R. fold sp. rewrite FR. discriminate.
+      + apply R.
+      + intros name HN. destruct (path_eqb sp (stage_path (f_base cfg) name)) eqn:E.
+        * apply path_eqb_eq in E. exists (length (fs_str st)). rewrite <- E. apply nth_error_snoc_new.
+        * apply path_eqb_neq in E. rewrite lookup_set_other in HN by auto.
+          destruct (r_stage _ _ R name HN) as [sid H]. exists sid.
+          rewrite nth_error_snoc_old; auto. eapply nth_error_lt; eauto.
+      + intros k d HS. rewrite lookup_set_other. apply (r_map _ _ R); auto.
+        intros E. destruct HS as [_ [K _]]. eapply keypath_not_staging; eauto. exists (stage_name (fs_ctr st)). auto.
+      + rewrite !app_length. simpl. rewrite (r_len _ _ R). auto.
+      + intros sid sp' HO. apply nth_error_snoc in HO. destruct HO as [[LT HO]|[EQ HO]].
+        * destruct (r_open _ _ R sid sp' HO) as [j [c [E [J [SS L]]]]]. exists j, c.
+          split; auto. split. lia. split.
+          -- rewrite nth_error_snoc_old; auto. rewrite <- (r_len _ _ R). auto.
+          -- rewrite lookup_set_other; auto. intros E2. rewrite <- E2 in L. congruence.
+        * inversion HO; subst sp'. exists (fs_ctr st), []. split; auto. split. lia. split.
+          -- rewrite EQ, (r_len _ _ R). apply nth_error_snoc_new.
+          -- apply lookup_set_same. auto.
+      + intros sid HC. apply nth_error_snoc in HC. destruct HC as [[LT HC]|[EQ HC]]; [|discriminate].
+        destruct (r_closed _ _ R sid HC) as [c H]. exists c.
+        rewrite nth_error_snoc_old; auto. rewrite <- (r_len _ _ R). auto.
+      + intros i j sp' Hi Hj. apply nth_error_snoc in Hi. apply nth_error_snoc in Hj.
+        destruct Hi as [[Li Hi]|[Ei Hi]]; destruct Hj as [[Lj Hj]|[Ej Hj]].
+        * eapply (r_uniq _ _ R); eauto.
+        * exfalso. inversion Hj; subst sp'. destruct (r_open _ _ R i sp Hi) as [j' [c [_ [_ [_ L]]]]]. congruence.
+        * exfalso. inversion Hi; subst sp'. destruct (r_open _ _ R j sp Hj) as [j' [c [_ [_ [_ L]]]]]. congruence.
+        * lia.
+    - (* write to an open stream: only its staging file changes *)
+      rewrite (rel_handle st s h R).
+      destruct (nth_error (s_str s) sid) as [[c u]|] eqn:SS; try discriminate.
+      destruct (s_handle s h) as [b|] eqn:SH; try discriminate. destruct u; try discriminate.
+      assert (FO : exists sp, nth_error (fs_str st) sid = Some (Some sp)).
+      { destruct (nth_error (fs_str st) sid) as [[sp|]|] eqn:X; eauto.
+        - destruct (r_closed _ _ R sid X) as [c' H]. congruence.
+        - apply nth_error_None in X. rewrite (r_len _ _ R) in X. apply nth_error_lt in SS. lia. }
+      destruct FO as [sp FO]. rewrite FO.
+      destruct (r_open _ _ R sid sp FO) as [j [c' [E [J [SS' L]]]]]. rewrite SS in SS'. inversion SS'; subst c'.
+      assert (SPN : sp <> []) by (eapply lookup_file_nonnil; eauto).
+      unfold do_sys. rewrite (exec_write_ok _ sp b c L). simpl. split; auto. split; [|lia].
+      constructor; simpl.
+      + rewrite E. apply (good_set_stage cfg base_ok). apply R. rewrite <- E, L. discriminate.
+      + apply R.
+      + intros name HN. destruct (path_eqb sp (stage_path (f_base cfg) name)) eqn:X.
+        * apply path_eqb_eq in X. exists sid. rewrite <- X. auto.
+        * apply path_eqb_neq in X. rewrite lookup_set_other in HN by auto. apply (r_stage _ _ R name HN).
+      + intros k d HS. rewrite lookup_set_other. apply (r_map _ _ R); auto.
+        intros X. destruct HS as [_ [K _]]. eapply keypath_not_staging; eauto. exists (stage_name j). congruence.
+      + rewrite upd_length. apply (r_len _ _ R).
+      + intros sid' sp' HO. destruct (Nat.eq_dec sid sid') as [EQ|NE].
+        * subst sid'. rewrite FO in HO. inversion HO; subst sp'. exists j, (c ++ b).
+          split; auto. split; auto. split.
+          -- apply upd_nth_error_same. eapply nth_error_lt; eauto.
+          -- apply lookup_set_same. auto.
+        * destruct (r_open _ _ R sid' sp' HO) as [j' [c2 [E2 [J2 [SS2 L2]]]]]. exists j', c2.
+          split; auto. split; auto. split.
+          -- rewrite upd_nth_error_other; auto.
+          -- rewrite lookup_set_other; auto. intros X. rewrite <- X in HO. apply NE. apply (r_uniq _ _ R sid sid' sp); auto.
+      + intros sid' HC. destruct (Nat.eq_dec sid sid') as [EQ|NE]. { subst. congruence. }
+        rewrite upd_nth_error_other; auto. apply (r_closed _ _ R sid' HC).
+      + apply (r_uniq _ _ R).
+    - (* commit: the atomic move of the stream's staging file to the key path *)
+      destruct (nth_error (s_str s) sid) as [[c u]|] eqn:SS; try discriminate.
+      apply andb_true_iff in OK. destruct OK as [U PC]. destruct u; try discriminate.
+      assert (FO : exists sp, nth_error (fs_str st) sid = Some (Some sp)).
+      { destruct (nth_error (fs_str st) sid) as [[sp|]|] eqn:X; eauto.
+        - destruct (r_closed _ _ R sid X) as [c' H]. congruence.
+        - apply nth_error_None in X. rewrite (r_len _ _ R) in X. apply nth_error_lt in SS. lia. }
+      destruct FO as [sp FO]. rewrite FO.
+      destruct ST as [d HS]. pose proof HS as [KN _]. rewrite (storable_path k d HS).
+      destruct k as [|b0 k0]; try congruence.
+      destruct (r_open _ _ R sid sp FO) as [j [c' [E [J [SS' L]]]]]. rewrite SS in SS'. inversion SS'; subst c'.
+      assert (LC : last_comp sp = stage_name j).
+      { rewrite E. unfold last_comp, stage_path.
+        replace (f_base cfg ++ [temp_name; stage_name j]) with ((f_base cfg ++ [temp_name]) ++ [stage_name j])
+          by (rewrite <- app_assoc; auto).
+        apply last_last. }
+      match goal with |- context [w_run ?fu ?ev ?f ?pc ?l] =>
+        assert (SPE : stp cfg ev = sp) by (unfold stp; simpl; rewrite LC; auto);
+        destruct (commit_good cfg base_ok (fs_fs st) (b0 :: k0) d ev c (r_good _ _ R) HS eq_refl eq_refl)
+          as [f' [lg [RUN [G' [LD [LS [STG OTH]]]]]]]
+      end.
+      { simpl. rewrite LC. apply stage_name_ok. lia. }
+      { rewrite SPE. auto. }
+      rewrite SPE in RUN, LS, STG. rewrite RUN. simpl. split; auto. split; [|lia].
+      assert (NOTME : forall sid' sp', sid' <> sid -> nth_error (fs_str st) sid' = Some (Some sp') -> sp' <> sp).
+      { intros sid' sp' NE HO X. subst sp'. apply NE. eapply (r_uniq _ _ R); eauto. }
+      constructor; simpl.
+      + auto.
+      + rewrite s_put_hnd. apply R.
+      + intros name HN.
+        assert (NS : stage_path (f_base cfg) name <> sp) by (intros X; rewrite X in HN; congruence).
+        rewrite (STG name NS) in HN. destruct (r_stage _ _ R name HN) as [sid' H]. exists sid'.
+        rewrite upd_nth_error_other; auto. intros X. subst sid'. rewrite FO in H. inversion H. congruence.
+      + intros k' d' HS'. destruct (bytes_eqb k' (b0 :: k0)) eqn:EQ.
+        * apply bytes_eqb_eq in EQ. subst k'.
+          assert (d' = d). { pose proof (storable_path _ _ HS'). pose proof (storable_path _ _ HS). congruence. }
+          subst d'. rewrite LD. rewrite spec_put_same; auto.
+        * apply bytes_eqb_neq in EQ.
+          assert (d' <> d).
+          { intros X. subst d'. apply EQ. destruct HS' as [_ [K' _]]. destruct HS as [_ [K _]].
+            eapply keypath_inj; eauto. }
+          rewrite (OTH k' d' HS' H). rewrite spec_put_other by congruence. apply (r_map _ _ R). auto.
+      + rewrite s_put_str. simpl. rewrite !upd_length. apply (r_len _ _ R).
+      + intros sid' sp' HO. destruct (Nat.eq_dec sid sid') as [EQ|NE].
+        * subst sid'. rewrite upd_nth_error_same in HO by (eapply nth_error_lt; eauto). discriminate.
+        * rewrite upd_nth_error_other in HO by auto.
+          destruct (r_open _ _ R sid' sp' HO) as [j' [c2 [E2 [J2 [SS2 L2]]]]]. exists j', c2.
+          split; auto. split; auto. split.
+          -- rewrite s_put_str. simpl. rewrite upd_nth_error_other; auto.
+          -- rewrite E2. rewrite STG. rewrite <- E2. auto. rewrite <- E2. apply (NOTME sid'); auto.
+      + intros sid' HC. rewrite s_put_str. simpl. destruct (Nat.eq_dec sid sid') as [EQ|NE].
+        * subst sid'. exists c. apply upd_nth_error_same. eapply nth_error_lt; eauto.
+        * rewrite upd_nth_error_other in HC by auto. rewrite upd_nth_error_other by auto. apply (r_closed _ _ R sid' HC).
+      + intros i j' sp' Hi Hj.
+        destruct (Nat.eq_dec sid i). { subst i. rewrite upd_nth_error_same in Hi by (eapply nth_error_lt; eauto). discriminate. }
+        destruct (Nat.eq_dec sid j'). { subst j'. rewrite upd_nth_error_same in Hj by (eapply nth_error_lt; eauto). discriminate. }
+        rewrite upd_nth_error_other in Hi by auto. rewrite upd_nth_error_other in Hj by auto.
+        eapply (r_uniq _ _ R); eauto.
   Qed.
 
   Theorem fs_refines_from : forall ops st s, rel st s ->
     hist_ok (@Some (list N)) true s ops = true -> Forall (op_storable cfg) ops ->
-    forallb atomic_op ops = true ->
     (fs_ctr st + N.of_nat (length ops) < 2 ^ 254)%N ->
     fs_obs cfg st ops = spec_run (@Some (list N)) true s ops.
   Proof.
-    induction ops; intros st s R OK ST AT CT; simpl in *. reflexivity.
+    induction ops; intros st s R OK ST CT; simpl in *. reflexivity.
     apply andb_true_iff in OK. destruct OK as [O1 O2]. inversion ST; subst.
-    apply andb_true_iff in AT. destruct AT as [A1 A2].
-    destruct (step_rel st s a R O1 H1 A1) as [E [R' C']]. lia.
+    destruct (step_rel st s a R O1 H1) as [E [R' C']]. lia.
     unfold fs_obs. simpl.
     destruct (fs_step cfg st a) as [[st1 ob] lg]. destruct (spec_step (@Some (list N)) true s a) as [s1 ob2].
     simpl in *. f_equal; auto. apply IHops; auto. lia.
